@@ -64,7 +64,8 @@ Section Step.
       + destruct (inv_sound ct s (t_cur t) HI) as [Hs _]; [lia|].
         destruct (pub (getc (t_cur t) (classes s))) as [m|] eqn:Ep; [|congruence].
         apply inv_nw with (t := t); auto.
-        * split; [simpl; lia|]. split; [simpl; auto|]. split; [|simpl; split; [auto|discriminate]].
+        * split; [simpl; lia|]. split; [simpl; auto|].
+          split; [|simpl; split; [auto|split; [discriminate|rewrite <- Ec, Ep; discriminate]]].
           simpl. intros o Ho. inversion Ho; subst. unfold good_obs; simpl.
           split; [rewrite (Hs m eq_refl), Ec; reflexivity|]. split; [reflexivity|discriminate].
         * unfold depth; simpl. rewrite Hin. lia.
@@ -628,7 +629,9 @@ Section Step.
     pose proof HI as [HL [HC [HT HK]]]. destruct (HT i t Hi) as [Htf Hnh].
     pose proof Htf as [Hle [Hlt [_ Hf]]]. rewrite Hp in Hf. destruct Hf as [Ec Hall].
     apply inv_nw with (t := t); auto.
-    - split; [simpl; auto|]. split; [simpl; auto|]. split; [|simpl; split; [auto|discriminate]].
+    - split; [simpl; auto|]. split; [simpl; auto|].
+      split; [|simpl; split; [auto|split; [discriminate|]]];
+        [|destruct (Hall (t_tgt t)) as [Hpub0 _]; [lia|rewrite Hpub0; discriminate]].
       simpl. intros o Ho. inversion Ho; subst; clear Ho. unfold good_obs; simpl.
       split; [|split; [reflexivity|intros _]].
       + destruct (Hall (t_cur t)) as [Hpub _]; [lia|]. rewrite Hpub, Ec. reflexivity.
